@@ -242,3 +242,32 @@ Definition run_derive (prop : Z) (case obs : val) : val :=
       let P := if (prop =? 9)%Z then P_C09 k else if (prop =? 11)%Z then P_C11 k else P_C12 k in
       VList [vbool same; vbool (valid_r k); vbool (P m); vbool (P obs); if same then VList [] else m]
   end.
+
+(* ---- C10: the inputs are re-observed after the derivation and after every follow-up step on the result ----
+   Observation: [code; per step: per input 1 (snapshot equal to the one taken before the call) / 0; shared]
+   where shared = 1 iff the result holds a Record object that also belongs to an input.  At value level nothing can
+   change, so the model's observation is "all equal, nothing shared"; the object-level statement is model/Heap.v. *)
+Definition run_inputs_unchanged (case obs : val) : val :=
+  match case with
+  | VList [VList [ins; op; ss; ps; ft]; VInt nsteps; VInt is_discover] =>
+      match decode_rcase (VList [ins; op; ss; ps; ft]) with
+      | None => VList [VInt (-1)]
+      | Some k =>
+          let code := if Z.eqb is_discover 0
+                      then match input_convs k with
+                           | Val cs => derive_code (derive k cs)
+                           | Raise _ => (-3)%Z end
+                      else 0%Z in
+          let n := length (rc_inputs k) in
+          let steps := if Z.eqb code 0 then Z.to_nat nsteps else 1%nat in
+          let m := VList [VInt code; VList (repeat (VList (repeat (VInt 1) n)) steps); VInt 0] in
+          let same := val_eqb m obs in
+          let P := fun o => match o with
+                            | VList [VInt c; VList st; VInt sh] =>
+                                Z.eqb sh 0 && forallb (fun s => match s with VList fl => forallb (val_eqb (VInt 1)) fl | _ => false end) st
+                                && Nat.eqb (length st) steps
+                            | _ => false end in
+          VList [vbool same; vbool (valid_r k || negb (Z.eqb is_discover 0)); vbool (P m); vbool (P obs); if same then VList [] else m]
+      end
+  | _ => VList [VInt (-1)]
+  end.
